@@ -306,7 +306,8 @@ Definition wf_items (o : ropts) (ds : list derivedcol) : bool :=
   | _ => forallb (fun d => wf_prim o (dc_prim d)) ds
   end.
 
-Definition wf_select (o : ropts) (s : select_stmt) : bool :=
+(* everything about a SELECT except the GROUP BY / select list consistency *)
+Definition wf_select_syn (o : ropts) (s : select_stmt) : bool :=
   wf_items o (sel_list s) &&
   match sel_from s with
   | [] =>
@@ -318,22 +319,33 @@ Definition wf_select (o : ropts) (s : select_stmt) : bool :=
   | [tr] => wf_tref o tr && wf_where o (sel_where s)
   | _ => false
   end &&
-  match validate_group_by (sel_list s) (sel_group s) with None => true | Some _ => false end &&
   wf_limit o (sel_limit_active s) (sel_limit s) &&
   wf_limit o (sel_offset_active s) (sel_offset s).
+
+Definition group_by_consistent (s : select_stmt) : bool :=
+  match validate_group_by (sel_list s) (sel_group s) with None => true | Some _ => false end.
+
+Definition wf_select (o : ropts) (s : select_stmt) : bool :=
+  wf_select_syn o s && group_by_consistent s.
 
 Definition wf_sqltype (o : ropts) (t : sqltype) : bool :=
   match t with STVarchar n => num_ok o n | _ => true end.
 
-Definition wf_stmt (o : ropts) (s : stmt) : bool :=
+(* `semantic` = also require the GROUP BY consistency that validateGroupByFields enforces *)
+Definition wf_stmt_gen (semantic : bool) (o : ropts) (s : stmt) : bool :=
   match s with
-  | SSelect sel => wf_select o sel
+  | SSelect sel => wf_select_syn o sel && (negb semantic || group_by_consistent sel)
   | SCreateTable _ cols => forallb (fun d => wf_sqltype o (cd_type d)) cols
   | SCreateDatabase _ | SShowDatabase | SUse _ => true
   | SInsert _ _ rows => forallb (forallb (wf_value o)) rows
   | SUpdate _ sets w => forallb (fun p => wf_vexpr o (snd p)) sets && wf_where o w
   | SDelete _ w => wf_where o w
   end.
+
+Definition wf_stmt : ropts -> stmt -> bool := wf_stmt_gen true.
+
+(* written in standard form, GROUP BY consistency not required *)
+Definition wf_stmt_syn : ropts -> stmt -> bool := wf_stmt_gen false.
 
 (* ---- correspondence run (tools/props/c10.py): a generated tree, the choices used to write it
         as text, what the Go scanner+wrapper made of the text, and what Go parsed ---- *)
